@@ -750,6 +750,7 @@ Notes:
         if self._live and (self._energy_history is not None or (not len(self._stepmon) and self._fcalls[0])):
             self.energy_history = None # resync with 'best' energy
             self._stepmon(self.bestSolution, self.bestEnergy, self.id)
+            self._live = False # (also in the saved state)
             # if savefrequency matches, then save state
             self._AbstractSolver__save_state()
         self._live = False
